@@ -683,7 +683,7 @@ func (env *SpecEnv) evalBinary(e *ast.BinaryExpr) (TV, error) {
 		return TV{Mul(a.t, b.t), a.typ}, nil
 	case token.QUO:
 		if a.t.sort == SReal {
-			return TV{mk(SReal, "/", a.t, b.t), a.typ}, nil
+			return TV{env.ex.realDiv(a.t, b.t), a.typ}, nil
 		}
 		return TV{mk(SInt, "go.div", a.t, b.t), a.typ}, nil
 	case token.REM:
@@ -791,6 +791,11 @@ func (env *SpecEnv) evalCall(e *ast.CallExpr) (TV, error) {
 		}
 		// pkg.Func(...)
 		id := sel.X.(*ast.Ident)
+		if pk := env.importedPkg(id.Name); pk != nil {
+			if rs, sig, err := env.pureApplyIn(pk, sel.Sel.Name, e.Args); err == nil {
+				return TV{rs[0], sig.Results().At(0).Type()}, nil
+			}
+		}
 		var args []TV
 		for _, a := range e.Args {
 			v, err := env.eval(a)
@@ -988,11 +993,21 @@ func (env *SpecEnv) evalCall(e *ast.CallExpr) (TV, error) {
 		if !ok {
 			return TV{}, fmt.Errorf("%s(f(...)) expects a call of a pure function", id.Name)
 		}
-		fid, ok := call.Fun.(*ast.Ident)
-		if !ok {
+		var rs []T
+		var sig *types.Signature
+		var err error
+		switch fx := call.Fun.(type) {
+		case *ast.Ident:
+			rs, sig, err = env.pureApply(fx.Name, call.Args)
+		case *ast.SelectorExpr:
+			pid, ok := fx.X.(*ast.Ident)
+			if !ok || env.importedPkg(pid.Name) == nil {
+				return TV{}, fmt.Errorf("%s(f(...)): f must be a package function", id.Name)
+			}
+			rs, sig, err = env.pureApplyIn(env.importedPkg(pid.Name), fx.Sel.Name, call.Args)
+		default:
 			return TV{}, fmt.Errorf("%s(f(...)): f must be a package function", id.Name)
 		}
-		rs, sig, err := env.pureApply(fid.Name, call.Args)
 		if err != nil {
 			return TV{}, err
 		}
@@ -1034,6 +1049,17 @@ func (env *SpecEnv) evalCall(e *ast.CallExpr) (TV, error) {
 			return TV{}, err
 		}
 		return TV{x.t, types.Typ[types.Int64]}, nil
+	case "sqrt":
+		x, err := env.eval(e.Args[0])
+		if err != nil {
+			return TV{}, err
+		}
+		vc.declareSqrt()
+		t := x.t
+		if t.sort == SInt {
+			t = mk(SReal, "to_real", t)
+		}
+		return TV{mk(SReal, "real.sqrt", t), types.Typ[types.Float64]}, nil
 	case "rnd64":
 		x, err := env.eval(e.Args[0])
 		if err != nil {
@@ -1131,8 +1157,12 @@ func (env *SpecEnv) evalCall(e *ast.CallExpr) (TV, error) {
 }
 
 func (env *SpecEnv) pureApply(name string, argExprs []ast.Expr) ([]T, *types.Signature, error) {
+	return env.pureApplyIn(env.pkg(), name, argExprs)
+}
+
+func (env *SpecEnv) pureApplyIn(pkg *types.Package, name string, argExprs []ast.Expr) ([]T, *types.Signature, error) {
 	ex := env.ex
-	if obj := env.pkg().Scope().Lookup(name); obj != nil {
+	if obj := pkg.Scope().Lookup(name); obj != nil {
 		if f, ok := obj.(*types.Func); ok {
 			sf := ex.P.prog.FuncValue(f)
 			if con := ex.P.contractOf(sf); con != nil && con.Pure {
@@ -1152,6 +1182,9 @@ func (env *SpecEnv) pureApply(name string, argExprs []ast.Expr) ([]T, *types.Sig
 				return rs, sf.Signature, nil
 			}
 		}
+	}
+	if pkg != env.pkg() {
+		return nil, nil, fmt.Errorf("%s.%s is not a pure function under contract", pkg.Name(), name)
 	}
 	// pure methods of the package: name(recv, args...)
 	if ps := ex.P.specs[env.pkg().Path()]; ps != nil {
